@@ -124,6 +124,25 @@ struct TypeResolver<'a> {
     diagnostics: Vec<Diagnostic>,
 }
 
+impl TypeResolver<'_> {
+    /// Reports the type if the type is not an elementary type and is not
+    /// declared.
+    fn check_declared(&mut self, name: &Type) {
+        if !is_elementary_type(name)
+            && !is_unsupported_standard_type(name)
+            && self.types.find(name).is_none()
+        {
+            self.diagnostics.push(
+                Diagnostic::problem(
+                    Problem::UndeclaredUnknownType,
+                    Label::span(name.span(), "Variable type"),
+                )
+                .with_context_type("identifier", name),
+            );
+        }
+    }
+}
+
 impl<'a> Fold<Diagnostic> for TypeResolver<'a> {
     fn fold_initial_value_assignment_kind(
         &mut self,
@@ -210,19 +229,25 @@ impl<'a> Fold<Diagnostic> for TypeResolver<'a> {
                 // The type of a variable having a constant as the initial value (or
                 // of an external variable) is known to be simple from the syntax.
                 // The type still must be one that is declared.
-                if !is_elementary_type(&simple.type_name)
-                    && !is_unsupported_standard_type(&simple.type_name)
-                    && self.types.find(&simple.type_name).is_none()
-                {
-                    self.diagnostics.push(
-                        Diagnostic::problem(
-                            Problem::UndeclaredUnknownType,
-                            Label::span(simple.type_name.span(), "Variable type"),
-                        )
-                        .with_context_type("identifier", &simple.type_name),
-                    );
-                }
+                self.check_declared(&simple.type_name);
                 Ok(InitialValueAssignmentKind::Simple(simple))
+            }
+            InitialValueAssignmentKind::Structure(init) => {
+                self.check_declared(&init.type_name);
+                Ok(InitialValueAssignmentKind::Structure(init))
+            }
+            InitialValueAssignmentKind::FunctionBlock(init) => {
+                self.check_declared(&init.type_name);
+                Ok(InitialValueAssignmentKind::FunctionBlock(init))
+            }
+            InitialValueAssignmentKind::Array(init) => {
+                match &init.spec {
+                    ArraySpecificationKind::Type(name) => self.check_declared(name),
+                    ArraySpecificationKind::Subranges(subranges) => {
+                        self.check_declared(&subranges.type_name)
+                    }
+                }
+                Ok(InitialValueAssignmentKind::Array(init))
             }
             _ => Ok(node),
         }
